@@ -5,6 +5,9 @@
 //! write, and whether anything else (raw storage, smart queries) changed.
 use crate::chain;
 use crate::util::*;
+use crate::util::NATIVE;
+use crate::c18::{upd_json, Upd};
+use crate::w_factory::{jcoin, params_from_json, params_json, q_params, FParams, FactoryKind};
 use crate::w_migrate::*;
 use crate::Args;
 use serde::{Deserialize, Serialize};
@@ -22,7 +25,7 @@ pub enum MsgKind {
     BadShuffleFee,
 }
 
-#[derive(Clone, Debug, Serialize, Deserialize, PartialEq, Eq, PartialOrd, Ord)]
+#[derive(Clone, Debug, Serialize, Deserialize, PartialEq, Eq)]
 pub enum Case {
     /// semver::Version::parse on the crate itself
     Parse { s: String },
@@ -41,6 +44,9 @@ pub enum Case {
         /// run the migration at this block time instead of the world's (nanoseconds)
         clock: Option<u64>,
     },
+    /// a factory instantiated with `init`, stored cw2 (name, version), migrated with an
+    /// optional parameter message; the Params answer is compared field by field
+    MigP { kind: FactoryKind, init: FParams, upd: Option<Upd>, name: String, version: String },
 }
 
 fn coq_str(s: &str) -> String {
@@ -358,6 +364,511 @@ fn run_pure(case: &Case) -> Outcome {
     }
 }
 
+// ---------------- factory migrations with parameters ----------------
+type Cn = (String, u128);
+
+fn fcontract(kind: FactoryKind) -> Contract {
+    match kind {
+        FactoryKind::Base => Contract::BaseFactory,
+        FactoryKind::Vending => Contract::VendingFactory,
+        FactoryKind::OpenEdition => Contract::OpenEditionFactory,
+        FactoryKind::TokenMerge => Contract::TokenMergeFactory,
+    }
+}
+
+struct Names {
+    denoms: Ids,
+    strs: Ids,
+}
+impl Names {
+    fn new() -> Self {
+        Names { denoms: denom_ids(), strs: Ids::with_fixed(&[], 100) }
+    }
+    fn coin(&mut self, c: &Cn) -> String {
+        format!("(mkCoin {} {})", self.denoms.id(&c.0), c.1)
+    }
+    fn ocoin(&mut self, c: &Option<Cn>) -> String {
+        match c {
+            Some(c) => format!("(Some {})", self.coin(c)),
+            None => "None".into(),
+        }
+    }
+}
+fn on<T: std::fmt::Display>(o: &Option<T>) -> String {
+    match o {
+        Some(x) => format!("(Some {})", x),
+        None => "None".into(),
+    }
+}
+fn nl(l: &[u64]) -> String {
+    coq_list(&l.iter().map(|x| x.to_string()).collect::<Vec<_>>())
+}
+fn ol(o: &Option<Vec<u64>>) -> String {
+    match o {
+        Some(l) => format!("(Some {})", nl(l)),
+        None => "None".into(),
+    }
+}
+fn coq_cp(n: &mut Names, p: &FParams) -> String {
+    format!(
+        "(mkCP {} {} {} {} {} {} {})",
+        p.code_id,
+        nl(&p.allowed),
+        coq_bool(p.frozen),
+        n.coin(&p.creation_fee),
+        n.coin(&p.min_mint_price),
+        p.mint_fee_bps,
+        p.offset
+    )
+}
+fn coq_fparams(n: &mut Names, kind: FactoryKind, p: &FParams) -> String {
+    match kind {
+        FactoryKind::Base => coq_cp(n, p),
+        FactoryKind::Vending => format!(
+            "(mkVP {} (mkVX {} {} {} {} {}))",
+            coq_cp(n, p),
+            p.max_token_limit,
+            p.max_per_address_limit,
+            n.coin(&p.airdrop_mint_price),
+            p.airdrop_mint_fee_bps,
+            n.coin(&p.shuffle_fee)
+        ),
+        FactoryKind::OpenEdition => format!(
+            "(mkOP {} (mkOX {} {} {} {} {}))",
+            coq_cp(n, p),
+            p.max_token_limit,
+            p.max_per_address_limit,
+            p.airdrop_mint_fee_bps,
+            n.coin(&p.airdrop_mint_price),
+            n.strs.id(&p.dev_fee_address)
+        ),
+        FactoryKind::TokenMerge => format!(
+            "(mkTP {} {} {} {} {} {} {} {} {} {})",
+            p.code_id,
+            nl(&p.allowed),
+            coq_bool(p.frozen),
+            n.coin(&p.creation_fee),
+            p.offset,
+            p.max_token_limit,
+            p.max_per_address_limit,
+            n.coin(&p.airdrop_mint_price),
+            p.airdrop_mint_fee_bps,
+            n.coin(&p.shuffle_fee)
+        ),
+    }
+}
+fn coq_cm(n: &mut Names, u: &Upd) -> String {
+    format!(
+        "(mkCM {} {} {} {} {} {} {} {})",
+        on(&u.code_id),
+        ol(&u.add),
+        ol(&u.rm),
+        coq_opt_bool(u.frozen),
+        n.ocoin(&u.creation_fee),
+        n.ocoin(&u.min_mint_price),
+        on(&u.mint_fee_bps),
+        on(&u.offset)
+    )
+}
+fn coq_vxm(n: &mut Names, u: &Upd) -> String {
+    format!(
+        "(mkVXM {} {} {} {} {})",
+        on(&u.max_token_limit),
+        on(&u.max_per_address_limit),
+        n.ocoin(&u.airdrop_mint_price),
+        on(&u.airdrop_mint_fee_bps),
+        n.ocoin(&u.shuffle_fee)
+    )
+}
+fn coq_upd(n: &mut Names, kind: FactoryKind, u: &Option<Upd>) -> String {
+    let Some(u) = u else { return "None".into() };
+    let body = match kind {
+        FactoryKind::Base => coq_cm(n, u),
+        FactoryKind::Vending => format!("(mkVM {} {})", coq_cm(n, u), coq_vxm(n, u)),
+        FactoryKind::OpenEdition => {
+            let dev = match &u.dev_fee_address {
+                Some(s) => format!("(Some {})", n.strs.id(s)),
+                None => "None".into(),
+            };
+            format!(
+                "(mkOM {} (mkOXM {} {} {} {} {} {}))",
+                coq_cm(n, u),
+                on(&u.max_token_limit),
+                on(&u.max_per_address_limit),
+                n.ocoin(&u.ext_min_mint_price),
+                on(&u.airdrop_mint_fee_bps),
+                n.ocoin(&u.airdrop_mint_price),
+                dev
+            )
+        }
+        FactoryKind::TokenMerge => format!(
+            "(mkTM {} {} {} {} {} {} {})",
+            on(&u.code_id),
+            ol(&u.add),
+            ol(&u.rm),
+            coq_opt_bool(u.frozen),
+            n.ocoin(&u.creation_fee),
+            on(&u.offset),
+            coq_vxm(n, u)
+        ),
+    };
+    format!("(Some {})", body)
+}
+
+/// the leaves of a Params answer: scalars, coins and the id list, by dotted path
+fn leaves(v: &Value, prefix: &str, out: &mut BTreeMap<String, Value>) {
+    match v {
+        Value::Object(m) if !(m.len() == 2 && m.contains_key("denom") && m.contains_key("amount")) => {
+            for (k, x) in m {
+                let p = if prefix.is_empty() { k.clone() } else { format!("{}.{}", prefix, k) };
+                leaves(x, &p, out);
+            }
+        }
+        other => {
+            out.insert(prefix.to_string(), other.clone());
+        }
+    }
+}
+
+/// message field -> (path in the Params answer, the value the message supplies), from the
+/// message and state struct definitions of each factory
+fn supplied(kind: FactoryKind, u: &Upd) -> BTreeMap<String, Value> {
+    let c = |x: &Cn| jcoin(&x.0, x.1);
+    let mut m = BTreeMap::new();
+    let mut put = |path: String, v: Option<Value>| {
+        if let Some(v) = v {
+            m.insert(path, v);
+        }
+    };
+    put("code_id".into(), u.code_id.map(|x| json!(x)));
+    put("frozen".into(), u.frozen.map(|x| json!(x)));
+    put("creation_fee".into(), u.creation_fee.as_ref().map(c));
+    put("max_trading_offset_secs".into(), u.offset.map(|x| json!(x)));
+    if kind != FactoryKind::TokenMerge {
+        put("min_mint_price".into(), u.min_mint_price.as_ref().map(c));
+        put("mint_fee_bps".into(), u.mint_fee_bps.map(|x| json!(x)));
+    }
+    if kind != FactoryKind::Base {
+        let e = |n: &str| if kind == FactoryKind::TokenMerge { n.to_string() } else { format!("extension.{}", n) };
+        put(e("max_token_limit"), u.max_token_limit.map(|x| json!(x)));
+        put(e("max_per_address_limit"), u.max_per_address_limit.map(|x| json!(x)));
+        put(e("airdrop_mint_price"), u.airdrop_mint_price.as_ref().map(c));
+        put(e("airdrop_mint_fee_bps"), u.airdrop_mint_fee_bps.map(|x| json!(x)));
+        if kind == FactoryKind::OpenEdition {
+            put(e("dev_fee_address"), u.dev_fee_address.as_ref().map(|x| json!(x)));
+        } else {
+            put(e("shuffle_fee"), u.shuffle_fee.as_ref().map(c));
+        }
+    }
+    m
+}
+fn id_set(v: &Value) -> BTreeSet<u64> {
+    v.as_array().map(|a| a.iter().filter_map(|x| x.as_u64()).collect()).unwrap_or_default()
+}
+
+fn run_migp(case: &Case, code_version: &str) -> Outcome {
+    let Case::MigP { kind, init, upd, name, version } = case else { unreachable!() };
+    let kind = *kind;
+    let c = fcontract(kind);
+    let mut app = chain::new_app();
+    let code_id = app.store_code(kind.code());
+    let imsg = json!({ "params": params_json(kind, init) });
+    let addr = {
+        use cw_multi_test::Executor;
+        app.instantiate_contract(code_id, cosmwasm_std::Addr::unchecked("governance"), &imsg, &[], "factory", Some(CREATOR.to_string()))
+            .unwrap_or_else(|e| panic!("cannot instantiate {:?} with {}: {:#}", kind, imsg, e))
+    };
+    set_cw2(&mut app, &addr, name, version);
+    let now = chain::now(&app);
+    let pre_raw = raw_storage(&app, &addr);
+    let pre_params = q_params(&app, &addr).expect("Params query");
+    let msg = match upd {
+        None => Value::Null,
+        Some(u) => upd_json(kind, u)["update_params"].clone(),
+    };
+    let mut setup = Setup { app, addr: addr.clone(), admin: CREATOR.to_string(), code_id, contract: c };
+    let r = migrate(&mut setup, &msg);
+    let app = setup.app;
+    let ok = r.is_ok();
+    let post_raw = raw_storage(&app, &addr);
+    let post_params = q_params(&app, &addr).expect("Params query");
+    let (post_name, post_version) = get_cw2(&app, &addr);
+    let mut rest_unchanged = true;
+    for k in pre_raw.keys().chain(post_raw.keys()) {
+        if pre_raw.get(k) != post_raw.get(k) && k.as_slice() != b"sudo-params" && k.as_slice() != b"contract_info" {
+            rest_unchanged = false;
+        }
+    }
+
+    // ---- monitors: the property sentence on the Params answers
+    let mut viol = vec![];
+    let mut v = |key: &str, what: String| {
+        viol.push((format!("C20:{}:{:?}", key, c), format!("{:?} stored ({:?}, {:?}) params {} message {}: {}", c, name, version, pre_params, msg, what)))
+    };
+    let code = plain_triple(code_version).expect("code version");
+    let stored = plain_triple(version);
+    let accepted = documented_names(c).contains(&name.as_str());
+    let mut pre_l = BTreeMap::new();
+    let mut post_l = BTreeMap::new();
+    leaves(&pre_params, "", &mut pre_l);
+    leaves(&post_params, "", &mut post_l);
+    if ok {
+        if !accepted {
+            v("accepted-foreign-name", "the stored contract identity is not one this code accepts".into());
+        }
+        match stored {
+            None => v("accepted-unparsable-version", "the stored version is not a semantic version".into()),
+            Some(s) if s > code => v("accepted-newer-version", format!("stored {:?} is newer than the code's {:?}", s, code)),
+            _ => {}
+        }
+        if (post_name.as_str(), post_version.as_str()) != (name.as_str(), version.as_str()) {
+            v("post-version", format!("a factory migration changed the recorded version to ({}, {})", post_name, post_version));
+        }
+        let sup = upd.as_ref().map(|u| supplied(kind, u)).unwrap_or_default();
+        let ids_supplied = upd.as_ref().map_or(false, |u| u.add.is_some() || u.rm.is_some());
+        if pre_l.keys().collect::<Vec<_>>() != post_l.keys().collect::<Vec<_>>() {
+            v("factory-migrate-unsupplied-param-changed", "the set of parameters in the Params answer changed".into());
+        }
+        for (path, before) in &pre_l {
+            let Some(after) = post_l.get(path) else { continue };
+            if path == "allowed_sg721_code_ids" {
+                // a set of ids: without additions/removals the same set; with them, additions before removals
+                let (b, a) = (id_set(before), id_set(after));
+                if !ids_supplied {
+                    if a != b {
+                        v("factory-migrate-unsupplied-param-changed", format!("{}: {} -> {} although no code id was added or removed", path, before, after));
+                    }
+                } else {
+                    let u = upd.as_ref().unwrap();
+                    let mut want = b.clone();
+                    want.extend(u.add.clone().unwrap_or_default());
+                    for x in u.rm.clone().unwrap_or_default() {
+                        want.remove(&x);
+                    }
+                    if a != want && a != b {
+                        v("factory-migrate-supplied-param-garbled", format!("{}: {} -> {}, neither the previous set nor previous + added - removed", path, before, after));
+                    }
+                }
+                continue;
+            }
+            match sup.get(path) {
+                None => {
+                    if after != before {
+                        v("factory-migrate-unsupplied-param-changed", format!("{} was not supplied and went {} -> {}", path, before, after));
+                    }
+                }
+                Some(want) => {
+                    if after != want && after != before {
+                        v("factory-migrate-supplied-param-garbled", format!("{} supplied as {} went {} -> {}", path, want, before, after));
+                    }
+                }
+            }
+        }
+        if !rest_unchanged {
+            v("storage-changed", "raw storage outside the parameters changed".into());
+        }
+    } else {
+        if pre_raw != post_raw || pre_params != post_params {
+            v("rejected-but-changed", "a refused migration changed the contract".into());
+        }
+        if let (true, Some(s)) = (accepted, stored) {
+            let all_native = upd.as_ref().map_or(true, |u| {
+                [&u.creation_fee, &u.min_mint_price, &u.airdrop_mint_price, &u.shuffle_fee, &u.ext_min_mint_price]
+                    .iter()
+                    .all(|c| c.as_ref().map_or(true, |c| c.0 == NATIVE))
+            });
+            if s <= code && all_native {
+                v("refused-compatible", format!("refused although the identity is accepted, {:?} <= {:?} and every supplied coin is native: {}", s, code, r.as_ref().unwrap_err()));
+            }
+        }
+    }
+    drop(v);
+
+    // ---- observation for the model
+    let mut n = Names::new();
+    let mut ids = Ids::with_fixed(&[], 10);
+    let p0 = params_from_json(kind, &pre_params, init).expect("Params answer has the documented shape");
+    let p1 = params_from_json(kind, &post_params, init).expect("Params answer has the documented shape");
+    let ctor = match kind {
+        FactoryKind::Base => "CMigBase",
+        FactoryKind::Vending => "CMigVending",
+        FactoryKind::OpenEdition => "CMigOE",
+        FactoryKind::TokenMerge => "CMigTM",
+    };
+    let pre_s = coq_state(name, version, &pre_raw, &mut ids);
+    let post_s = coq_state(&post_name, &post_version, &post_raw, &mut ids);
+    let p0s = coq_fparams(&mut n, kind, &p0);
+    let us = coq_upd(&mut n, kind, upd);
+    let p1s = coq_fparams(&mut n, kind, &p1);
+    Outcome {
+        coq: format!("{} {} {} {} {} {} {} {} {}", ctor, now, pre_s, p0s, us, coq_bool(ok), post_s, p1s, coq_bool(rest_unchanged)),
+        ok,
+        viol,
+        nontrivial: ok && upd.is_some(),
+    }
+}
+
+// ---- generators for the parameter cases
+const IBC: &str = "ibc/C4CFF46FD6DE35CA4CF4CE031E643C8FDC9BA4B99AE598E9B0ED98FE3A2319F9";
+
+/// stored parameters whose numeric fields are pairwise distinct (a fallback taken from the
+/// wrong stored field is then visible)
+fn init_params(which: u8) -> FParams {
+    let n = |a: u128| (NATIVE.to_string(), a);
+    match which {
+        0 => FParams {
+            code_id: 7,
+            allowed: vec![1, 3, 5],
+            frozen: false,
+            creation_fee: n(5_000_000_001),
+            min_mint_price: n(50_000_002),
+            mint_fee_bps: 1_003,
+            offset: 604_804,
+            max_token_limit: 10_005,
+            max_per_address_limit: 56,
+            airdrop_mint_price: n(100_000_007),
+            airdrop_mint_fee_bps: 9_008,
+            shuffle_fee: n(500_000_009),
+            dev_fee_address: "stars1abcd4kdla12mh86psg4y4h6hh05g2hmqoap350".to_string(),
+        },
+        _ => FParams {
+            code_id: 31,
+            allowed: vec![2, 2, 4, 9, 9],
+            frozen: true,
+            creation_fee: n(32),
+            min_mint_price: n(33),
+            mint_fee_bps: 34,
+            offset: 35,
+            max_token_limit: 36,
+            max_per_address_limit: 37,
+            airdrop_mint_price: n(38),
+            airdrop_mint_fee_bps: 39,
+            shuffle_fee: n(40),
+            dev_fee_address: "otherdev".to_string(),
+        },
+    }
+}
+
+/// names of the optional fields of the kind's migration message, in a fixed order
+fn field_names(kind: FactoryKind) -> Vec<&'static str> {
+    let mut v = vec!["code_id", "add", "rm", "frozen", "creation_fee", "offset"];
+    if kind != FactoryKind::TokenMerge {
+        v.extend(["min_mint_price", "mint_fee_bps"]);
+    }
+    match kind {
+        FactoryKind::Base => {}
+        FactoryKind::OpenEdition => v.extend(["max_token_limit", "max_per_address_limit", "airdrop_mint_price", "airdrop_mint_fee_bps", "ext_min_mint_price", "dev_fee_address"]),
+        _ => v.extend(["max_token_limit", "max_per_address_limit", "airdrop_mint_price", "airdrop_mint_fee_bps", "shuffle_fee"]),
+    }
+    v
+}
+
+/// a message supplying exactly the fields selected by `mask` (bit i = field_names[i]),
+/// with values distinct from every stored value; `salt` varies them
+fn upd_of_mask(kind: FactoryKind, mask: u32, init: &FParams, salt: u64) -> Upd {
+    let n = |a: u128| (NATIVE.to_string(), a);
+    let s = salt as u128;
+    let mut u = Upd::default();
+    for (i, f) in field_names(kind).iter().enumerate() {
+        if mask & (1 << i) == 0 {
+            continue;
+        }
+        match *f {
+            "code_id" => u.code_id = Some(121 + salt),
+            "add" => u.add = Some(vec![13 + salt, 5]),
+            "rm" => u.rm = Some(vec![3, 9]),
+            "frozen" => u.frozen = Some(!init.frozen),
+            "creation_fee" => u.creation_fee = Some(n(6_000_000_122 + s)),
+            "offset" => u.offset = Some(700_123 + salt),
+            "min_mint_price" => u.min_mint_price = Some(n(60_000_124 + s)),
+            "mint_fee_bps" => u.mint_fee_bps = Some(2_125 + salt),
+            "max_token_limit" => u.max_token_limit = Some(11_126 + salt as u32),
+            "max_per_address_limit" => u.max_per_address_limit = Some(127 + salt as u32),
+            "airdrop_mint_price" => u.airdrop_mint_price = Some(n(110_000_128 + s)),
+            "airdrop_mint_fee_bps" => u.airdrop_mint_fee_bps = Some(8_129 + salt),
+            "shuffle_fee" => u.shuffle_fee = Some(n(510_000_130 + s)),
+            "ext_min_mint_price" => u.ext_min_mint_price = Some(n(70_000_131 + s)),
+            "dev_fee_address" => u.dev_fee_address = Some(format!("newdev{}", salt)),
+            _ => unreachable!(),
+        }
+    }
+    u
+}
+
+fn migp(kind: FactoryKind, init: &FParams, upd: Option<Upd>, name: &str, version: &str) -> Case {
+    Case::MigP { kind, init: init.clone(), upd, name: name.to_string(), version: version.to_string() }
+}
+
+fn param_cases(a: &Args, rng: &mut Rng, code: &str) -> Vec<Case> {
+    let mut cases = vec![];
+    for kind in FactoryKind::ALL {
+        let own = own_name(fcontract(kind));
+        let nf = field_names(kind).len() as u32;
+        let full = (1u32 << nf) - 1;
+        for which in 0..2u8 {
+            let init = init_params(which);
+            // no message; the empty message; every field; every single field; all but one; every pair
+            let mut masks: Vec<u32> = vec![0, full];
+            for i in 0..nf {
+                masks.push(1 << i);
+                masks.push(full & !(1 << i));
+            }
+            for i in 0..nf {
+                for j in (i + 1)..nf {
+                    masks.push((1 << i) | (1 << j));
+                }
+            }
+            if a.thorough() && which == 0 {
+                masks.extend(0..=full); // every subset
+            } else {
+                for _ in 0..(if nf <= 8 { 120 } else { 60 }) {
+                    masks.push(rng.below(full as u64 + 1) as u32);
+                }
+            }
+            cases.push(migp(kind, &init, None, own, "3.15.0"));
+            for (k, m) in masks.iter().enumerate() {
+                let salt = if k % 3 == 0 { 0 } else { rng.below(50) };
+                cases.push(migp(kind, &init, Some(upd_of_mask(kind, *m, &init, salt)), own, "3.15.0"));
+            }
+            // other stored versions (equal to the code's, ancient) with single fields and everything
+            for ver in [code, "0.1.0", "3.9.0"] {
+                cases.push(migp(kind, &init, Some(upd_of_mask(kind, full, &init, 1)), own, ver));
+                for i in 0..nf {
+                    if (i + which as u32) % 3 == 0 {
+                        cases.push(migp(kind, &init, Some(upd_of_mask(kind, 1 << i, &init, 2)), own, ver));
+                    }
+                }
+            }
+            // refused by the gate: nothing of a full message may apply
+            for (name, ver) in [(own, "3.17.0"), (own, "4.0.0"), (own, "3.16"), (own, ""), ("crates.io:sg-minter", "3.15.0"), ("", "3.15.0")] {
+                cases.push(migp(kind, &init, Some(upd_of_mask(kind, full, &init, 3)), name, ver));
+                cases.push(migp(kind, &init, None, name, ver));
+            }
+            // a non-native denom in each coin field in turn, with every other field supplied:
+            // either the whole message is refused or (unchecked fields) applied
+            for f in ["creation_fee", "min_mint_price", "airdrop_mint_price", "shuffle_fee", "ext_min_mint_price"] {
+                if !field_names(kind).contains(&f) {
+                    continue;
+                }
+                for others in [full, 0] {
+                    let bit = 1u32 << field_names(kind).iter().position(|x| *x == f).unwrap();
+                    let mut u = upd_of_mask(kind, others | bit, &init, 4);
+                    let bad = Some((IBC.to_string(), 77u128));
+                    match f {
+                        "creation_fee" => u.creation_fee = bad,
+                        "min_mint_price" => u.min_mint_price = bad,
+                        "airdrop_mint_price" => u.airdrop_mint_price = bad,
+                        "shuffle_fee" => u.shuffle_fee = bad,
+                        _ => u.ext_min_mint_price = bad,
+                    }
+                    cases.push(migp(kind, &init, Some(u), own, "3.15.0"));
+                }
+            }
+        }
+    }
+    cases
+}
+
 // ---------------- generators ----------------
 const MAJORS: [u64; 5] = [0, 1, 2, 3, 4];
 const MINORS: [u64; 7] = [0, 1, 9, 10, 15, 16, 17];
@@ -508,6 +1019,8 @@ fn gen_cases(a: &Args, code: &str) -> Vec<Case> {
             }
         }
     }
+    // ---- factory migrations with parameter messages, field by field
+    cases.extend(param_cases(a, &mut rng, code));
     // ---- random stream
     let nrand = if a.thorough() { 20_000 } else { 600 };
     for _ in 0..nrand {
@@ -588,6 +1101,11 @@ pub fn run(a: &Args) {
                 rep.bump(&format!("{:?}:migrate:{}", contract, if o.ok { "ok" } else { "err" }));
                 o
             }
+            Case::MigP { kind, .. } => {
+                let o = run_migp(case, &code);
+                rep.bump(&format!("{:?}:migrate-with-params:{}", fcontract(*kind), if o.ok { "ok" } else { "err" }));
+                o
+            }
             _ => {
                 let o = run_pure(case);
                 rep.bump(&format!("semver:{}:{}", if matches!(case, Case::Parse { .. }) { "parse" } else { "cmp" }, if o.ok { "ok/true" } else { "err/false" }));
@@ -596,7 +1114,7 @@ pub fn run(a: &Args) {
         };
         rep.evaluations += 1;
         if o.nontrivial {
-            distinct.insert(case.clone());
+            distinct.insert(serde_json::to_string(case).unwrap());
         }
         for (key, what) in &o.viol {
             nviol += 1;
@@ -620,7 +1138,7 @@ pub fn run(a: &Args) {
     rep.distinct_nontrivial = distinct.len() as u64;
     rep.rule = "per contract (18) x life stage (3): stored cw2 (name, version) over the grid {0,1,2,3,4}x{0,1,9,10,15,16,17}x{0,1,9,10}, boundary versions (3.8.x/3.9.0, 2.99.99/3.0.0/3.1.0, 0.15.99/0.16.0, code-1/code/code+1, u64 max), 26 malformed version strings, 28 names (own, the other contracts', near misses); factory messages (none / valid / non-native denom per coin); block times around 12 h and 24 h; sg721-updatable with and without a legacy cw721 0.16 minter item and updatable flags; plus the semver crate's parse and Ord directly. Non-trivial = distinct case whose stored name is accepted and whose stored version parses (the migrate function gets past its identity checks).".into();
     rep.notes.push(format!("code (workspace) version of the tree under test: {}", code));
-    out.write_cases("C20", "From Coq Require Import String.\nFrom LP Require Import Semver Migrate C20Corr.", "c20_case", "c20_check", &coq_cases, 6, &mut rep);
+    out.write_cases("C20", "From Coq Require Import String.\nFrom LP Require Import Semver Migrate Params MigrateParams C20Corr.", "c20_case", "c20_check", &coq_cases, 6, &mut rep);
     out.finish(&rep);
     println!("C20 harness: {} cases, {} monitor violations", rep.evaluations, nviol);
 }
